@@ -46,3 +46,21 @@ Example c15_nonvacuous :
   FixedOffsetFromName (fixed_name_spec (-45296)) = Some (-45296) /\
   FixedOffsetToAbbr (-45296) = OK [45; 49; 50; 51; 52; 53; 54].
 Proof. vm_compute. split; reflexivity. Qed.
+
+From CCTZ Require Import SourceFixed SourceFixedProofs.
+(* SOURCE-DERIVED time_zone_fixed.cc (SourceFixed.v, regenerated from clang's AST of the current source on every run by
+   gen/ast_translate_out.py: std::string as byte lists, the char buf[] written through checked indices, chrono counts
+   as checked 64-bit integers, assert as Err Precond): the three helpers never err and compute EXACTLY what the
+   hand-written model computes - for every string and every 64-bit count, no hypothesis.  An edit of the C++
+   (e.g. `>` -> `>=` in the 24 h test, a shorter buf, a dropped abbr.erase) changes SourceFixed.v and breaks these. *)
+Theorem src_fixed_from_name_tie : forall name offset0,
+  so_FixedOffsetFromName name offset0
+  = OK (match FixedOffsetFromName name with Some v => (true, v) | None => (false, offset0) end).
+Proof. exact so_FixedOffsetFromName_tie. Qed.
+Print Assumptions src_fixed_from_name_tie.
+Theorem src_fixed_to_name_tie : forall offset, so_FixedOffsetToName offset = FixedOffsetToName offset.
+Proof. exact so_FixedOffsetToName_tie. Qed.
+Print Assumptions src_fixed_to_name_tie.
+Theorem src_fixed_to_abbr_tie : forall offset, so_FixedOffsetToAbbr offset = FixedOffsetToAbbr offset.
+Proof. exact so_FixedOffsetToAbbr_tie. Qed.
+Print Assumptions src_fixed_to_abbr_tie.
